@@ -195,7 +195,25 @@ func (x *Exec) ghostValue(e *Env, name string) (Value, bool) {
 }
 
 func (x *Exec) letType(lc LetClause) types.Type {
-	return letTypeOf(lc, x.Pkg.TypesInfo, x.Fn)
+	if t := letTypeOf(lc, x.Pkg.TypesInfo, x.Fn); t != nil {
+		return t
+	}
+	// the function no longer calls the callee the ghost is bound to: the ghost is arbitrary; its
+	// type is taken from a package-level function of that name, when there is one
+	if fn, ok := x.Pkg.Types.Scope().Lookup(lc.Callee).(*types.Func); ok {
+		sig := fn.Type().(*types.Signature)
+		switch lc.Kind {
+		case "arg":
+			if lc.Idx < sig.Params().Len() {
+				return sig.Params().At(lc.Idx).Type()
+			}
+		case "ret":
+			if lc.Idx < sig.Results().Len() {
+				return sig.Results().At(lc.Idx).Type()
+			}
+		}
+	}
+	return nil
 }
 
 // letTypeIn: type of a ghost of another function's contract (for modular calls).
